@@ -51,7 +51,7 @@ def code_part(line):
     return line if i < 0 else line[:i]
 
 
-def gen(repo, out, cap):
+def gen(repo, out, cap, extra=False):
     files = sorted(f for f in os.listdir(os.path.join(repo, "src")) if f.endswith(".rs"))
     paths = [os.path.join("src", f) for f in files] + ["build.rs"]
     rng = random.Random(20261003)
@@ -95,9 +95,20 @@ def gen(repo, out, cap):
                     nt = ("0x%x" % nv) if tok.startswith("0x") else str(nv)
                     new = line[:m.start(1)] + nt + line[m.end(1):]
                     cands.append(("num:%+d" % d, new))
+            # classical structural operators: force a condition, drop a single-line statement
+            mcond = re.match(r"^(\s*)(\}\s*else\s+)?if (?!let )(.+) \{\s*$", code.rstrip("\n"))
+            if mcond and extra:
+                ind, els, cond = mcond.group(1), mcond.group(2) or "", mcond.group(3)
+                cands.append(("cond:false", "%s%sif false && (%s) {" % (ind, els, cond)))
+                cands.append(("cond:true", "%s%sif true || (%s) {" % (ind, els, cond)))
+            st = code.strip()
+            if extra and st.endswith(";") and not st.startswith(("let ", "use ", "pub ", "const ", "static ", "type ", "//")) and "=>" not in st and not st.startswith("}"):
+                cands.append(("stmt:delete", line[: len(line) - len(line.lstrip())] + "();" if st.startswith("return") and False else line[: len(line) - len(line.lstrip())] + "{}"))
             for op, new in cands:
                 per_op.setdefault(op.split(":")[0], []).append({"file": rel, "line": ln + 1, "op": op, "old": line, "new": new})
         for grp, ms in per_op.items():
+            if extra and grp not in ("cond", "stmt"):
+                continue
             rng.shuffle(ms)
             allm.extend(ms[:cap] if grp == "num" else ms[: cap * 2])
     allm.sort(key=lambda m: (m["file"], m["line"], m["op"]))
@@ -157,9 +168,9 @@ def run(lane_dir, mfile, lane, lanes, out):
                     res["status"] = "survived"
                     res["ran"] = []
                     for p in order:
-                        rc, o = sh("./check %s quick 2>&1 | grep -E '^VIOLATION|signature:|harness build failed' | head -3" % p, verif, venv, 1800)
+                        rc, o = sh("./check %s quick 2>&1 | grep -E '^VIOLATION|signature:|harness build failed' | head -12" % p, verif, venv, 1800)
                         res["ran"].append(p)
-                        if "VIOLATION" in o:
+                        if "VIOLATION" in o or "signature:" in o:
                             sig = re.search(r"signature: (.*)", o)
                             res["status"] = "detected"
                             res["by"] = p
@@ -197,7 +208,7 @@ def report(files):
 if __name__ == "__main__":
     a = sys.argv[1:]
     if a[0] == "gen":
-        gen(a[1], a[2], int(a[3]) if len(a) > 3 else 6)
+        gen(a[1], a[2], int(a[3]) if len(a) > 3 else 6, extra=(len(a) > 4 and a[4] == "extra"))
     elif a[0] == "run":
         run(a[1], a[2], int(a[3]), int(a[4]), a[5])
     else:
